@@ -301,3 +301,56 @@ func genC11(g *gen) {
 		g.emit("new i16 2,3 C", "new i16 3,2 C", fmt.Sprintf("bin %s fn $0 $1", op), "dump $0")
 	}
 }
+
+var unaryOps = []string{"neg", "inv", "square", "cube", "exp", "tanh", "log", "log2", "log10", "sqrt", "cbrt", "invsqrt", "abs", "sign", "clamp", "apply"}
+
+// C12: unary maths and mapped functions.
+func genC12(g *gen) {
+	n := 2
+	if g.thorough() {
+		n = 40
+	}
+	modes := []string{"safe", "unsafe", "reuse", "incr", "reuse=a"}
+	for _, op := range unaryOps {
+		for _, dt := range append(append([]string{}, numDtypes...), "b", "str") {
+			for _, mode := range modes {
+				for k := 0; k < n; k++ {
+					var steps []string
+					nv := 0
+					isInt := !(strings.HasPrefix(dt, "f") || strings.HasPrefix(dt, "c"))
+					vs := []int{1, 2, 3}[g.r.intn(3)]
+					if op == "inv" && isInt {
+						vs = 2 // integer 1/0 panics in Go: outside the specification's domain
+					}
+					steps = append(steps, fmt.Sprintf("vset=%d", vs))
+					sh := g.pickShape()
+					a := g.operand(&steps, &nv, dt, sh, g.r.pick(layouts))
+					opts := ""
+					extra := []int{a}
+					switch mode {
+					case "unsafe":
+						opts = " unsafe"
+					case "reuse", "incr":
+						d := g.operand(&steps, &nv, dt, sh, g.r.pick([]string{"contig", "contig", "sliced", "lazyT"}))
+						extra = append(extra, d)
+						opts = fmt.Sprintf(" %s=$%d", mode, d)
+					case "reuse=a":
+						opts = fmt.Sprintf(" reuse=$%d", a)
+					}
+					params := ""
+					if op == "clamp" {
+						params = " #k2 #k5"
+					}
+					steps = append(steps, fmt.Sprintf("un %s $%d%s%s", op, a, params, opts))
+					res := nv
+					steps = append(steps, fmt.Sprintf("dump $%d", res))
+					for _, o := range extra {
+						steps = append(steps, fmt.Sprintf("dump $%d", o))
+					}
+					steps = append(steps, "dump $0")
+					g.emit(steps...)
+				}
+			}
+		}
+	}
+}
